@@ -162,6 +162,7 @@ impl DumpResult {
 }
 
 pub fn dump_with(w: &mut MinidumpWriter, dest: &mut (impl Write + Seek)) -> DumpResult {
+    crate::checks::universal::before_dump();
     crate::watch::dump_begin(crate::checks::universal::current_opts_json());
     let r = match guarded(|| w.dump(dest)) {
         Ok(Ok(b)) => DumpResult::Ok(b),
